@@ -27,42 +27,43 @@ inductive StepForm (sch : Schema) (op : Op α lab) (s s' : St α lab) : Prop whe
       (h : BinaryForm sch k a s v s')
   | same (hm : s'.mat = s.mat) (hc : ∀ kk, (s'.bundle kk).cols = (s.bundle kk).cols)
 
-theorem step_form [BEq lab] (le : lab → lab → Bool) (sch : Schema) (hs : sch.Simple) (fill : α) (fx : Bool)
-    (op : Op α lab) (s s' : St α lab) (hcons : consistentOK sch s = true) (hopnd : OperandsOK sch op s)
+theorem step_form [BEq lab] (le : lab → lab → Bool) (sch : Schema) (fill : α) (fx : Bool)
+    (op : Op α lab) (hs : sch.SimpleAt op.kind) (s s' : St α lab) (hcons : consistentOK sch s = true) (hopnd : OperandsOK sch op s)
     (hsafe : op.Safe sch) (h : step le sch fill fx op s = .ok s') : StepForm sch op s s' := by
-  have hax : ∀ k, (sch.axes k = [] → False) → ∃ a, sch.axes k = [a] ∧ a < 3 := by
-    intro k hne
-    rcases hs.single k with h0 | h1
+  have hax : ∀ k, k = op.kind → (sch.axes k = [] → False) → ∃ a, sch.axes k = [a] ∧ a < 3 := by
+    intro k hk hne
+    subst hk
+    rcases hs.single with h0 | h1
     · exact absurd h0 hne
     · exact h1
-  have unary : ∀ k, UnaryForm sch k s s' → (sch.axes k = [] → False) → StepForm sch op s s' := by
-    intro k hu hne
-    obtain ⟨a, ha, ha3⟩ := hax k hne
+  have unary : ∀ k, k = op.kind → UnaryForm sch k s s' → (sch.axes k = [] → False) → StepForm sch op s s' := by
+    intro k hk hu hne
+    obtain ⟨a, ha, ha3⟩ := hax k hk hne
     exact .unary k a ha ha3 hu
   cases op with
   | select k is =>
-    refine unary k (selectK_form hs.keeps h) ?_
+    refine unary k rfl (selectK_form hs.keeps h) ?_
     intro he; simp [step, selectK, he, bind, Except.bind, throw, throwThe, MonadExceptOf.throw] at h
   | delete k obj =>
-    refine unary k (deleteK_form hs.keeps h) ?_
+    refine unary k rfl (deleteK_form hs.keeps h) ?_
     intro he; simp [step, deleteK, he, bind, Except.bind, throw, throwThe, MonadExceptOf.throw] at h
   | remove k obj =>
-    refine unary k (removeK_form h) ?_
+    refine unary k rfl (removeK_form h) ?_
     intro he; simp [step, removeK, he, bind, Except.bind, throw, throwThe, MonadExceptOf.throw] at h
   | reorder k is =>
     simp only [step] at h
     split at h
-    · refine unary k (reorderK_form h) ?_
+    · refine unary k rfl (reorderK_form h) ?_
       intro he; simp [reorderK, reorderKPre, he, bind, Except.bind, throw, throwThe, MonadExceptOf.throw] at h
-    · refine unary k (reorderKPre_form h) ?_
+    · refine unary k rfl (reorderKPre_form h) ?_
       intro he; simp [reorderKPre, he, bind, Except.bind, throw, throwThe, MonadExceptOf.throw] at h
   | sort k keys =>
-    refine unary k (sortK_form h) ?_
+    refine unary k rfl (sortK_form h) ?_
     intro he
     obtain ⟨ix, hix, _⟩ := sortK_eq h
     simp [lexsortK, he, bind, Except.bind, throw, throwThe, MonadExceptOf.throw] at hix
   | group k =>
-    refine unary k (groupK_form h) ?_
+    refine unary k rfl (groupK_form h) ?_
     intro he
     obtain ⟨c, s1, _, hs1, _⟩ := groupK_eq h
     obtain ⟨ix, hix, _⟩ := sortK_eq hs1
@@ -78,13 +79,13 @@ theorem step_form [BEq lab] (le : lab → lab → Bool) (sch : Schema) (hs : sch
     · rename_i t ht
       rw [newObj_eq sch hs.keeps] at h
       have hs' := checkCtor_ok h
-      obtain ⟨a, ha, ha3⟩ := hax k (by intro he; simp [adjoinCore, he, bind, Except.bind, throw, throwThe, MonadExceptOf.throw] at ht)
+      obtain ⟨a, ha, ha3⟩ := hax k rfl (by intro he; simp [adjoinCore, he, bind, Except.bind, throw, throwThe, MonadExceptOf.throw] at ht)
       obtain ⟨hcompat, hb, _, _⟩ := adjoinCore_form ha ht
       rw [hs']
       exact .binary k a v (by simp [Op.operands]) rfl ha ha3 hcompat (binaryForm_fresh hb)
   | append k v =>
     simp only [step, appendK] at h
-    obtain ⟨a, ha, ha3⟩ := hax k (by intro he; simp [adjoinCore, he, bind, Except.bind, throw, throwThe, MonadExceptOf.throw] at h)
+    obtain ⟨a, ha, ha3⟩ := hax k rfl (by intro he; simp [adjoinCore, he, bind, Except.bind, throw, throwThe, MonadExceptOf.throw] at h)
     obtain ⟨hcompat, hb, _, _⟩ := adjoinCore_form ha h
     exact .binary k a v (by simp [Op.operands]) rfl ha ha3 hcompat hb
   | insert k obj v =>
@@ -94,14 +95,14 @@ theorem step_form [BEq lab] (le : lab → lab → Bool) (sch : Schema) (hs : sch
     · rename_i t ht
       rw [newObj_eq sch hs.keeps] at h
       have hs' := checkCtor_ok h
-      obtain ⟨a, ha, ha3⟩ := hax k (by intro he; simp [insertCore, insertCoreRaw, he, bind, Except.bind, throw, throwThe, MonadExceptOf.throw] at ht)
+      obtain ⟨a, ha, ha3⟩ := hax k rfl (by intro he; simp [insertCore, insertCoreRaw, he, bind, Except.bind, throw, throwThe, MonadExceptOf.throw] at ht)
       have hov := hopnd v (by simp [Op.operands])
       obtain ⟨hcompat, hb, _, _⟩ := insertCore_form hs.wraps ha ha3 ht hcons hov.1
       rw [hs']
       exact .binary k a v (by simp [Op.operands]) rfl ha ha3 hcompat (binaryForm_fresh hb)
   | incorp k obj v =>
     simp only [step, incorpK] at h
-    obtain ⟨a, ha, ha3⟩ := hax k (by intro he; simp [insertCore, insertCoreRaw, he, bind, Except.bind, throw, throwThe, MonadExceptOf.throw] at h)
+    obtain ⟨a, ha, ha3⟩ := hax k rfl (by intro he; simp [insertCore, insertCoreRaw, he, bind, Except.bind, throw, throwThe, MonadExceptOf.throw] at h)
     have hov := hopnd v (by simp [Op.operands])
     obtain ⟨hcompat, hb, _, _⟩ := insertCore_form hs.wraps ha ha3 h hcons hov.1
     exact .binary k a v (by simp [Op.operands]) rfl ha ha3 hcompat hb
@@ -114,18 +115,18 @@ theorem simple_lt {sch : Schema} (hs : sch.Simple) : ∀ kk b, b ∈ sch.axes kk
   · rw [ha] at hb; simp at hb; omega
 
 /-- **Every step preserves shape consistency** while no dimension is or becomes 0. -/
-theorem step_cons [BEq lab] (le : lab → lab → Bool) (sch : Schema) (hs : sch.Simple) (fill : α) (fx : Bool)
-    (op : Op α lab) (s s' : St α lab) (hcons : consistentOK sch s = true) (hopnd : OperandsOK sch op s)
+theorem step_cons [BEq lab] (le : lab → lab → Bool) (sch : Schema) (fill : α) (fx : Bool)
+    (op : Op α lab) (hs : sch.SimpleAt op.kind) (s s' : St α lab) (hcons : consistentOK sch s = true) (hopnd : OperandsOK sch op s)
     (hsafe : op.Safe sch) (hp : PosDims s.mat) (hpv : ∀ v ∈ op.operands, PosDims v.mat) (hp' : PosDims s'.mat)
     (h : step le sch fill fx op s = .ok s') : consistentOK sch s' = true := by
   rw [cons_iff] at hcons ⊢
   have hcons' : consistentOK sch s = true := (cons_iff sch s).mpr hcons
-  cases step_form le sch hs fill fx op s s' hcons' hopnd hsafe h with
-  | unary k a hax ha hu => exact cons_of_unaryForm sch hs.wf k a hax ha (simple_lt hs) s s' hcons hp hp' hu
+  cases step_form le sch fill fx op hs s s' hcons' hopnd hsafe h with
+  | unary k a hax ha hu => exact cons_of_unaryForm sch hs.wf k a hax ha hs.lt s s' hcons hp hp' hu
   | binary k a v hv hk hax ha hcompat hb =>
     have hov := hopnd v hv
     rw [hk] at hov
-    exact cons_of_binaryForm sch hs.wf k a hax ha (simple_lt hs) s v s' hcons ((cons_iff _ _).mp hov.1) hcompat hp
+    exact cons_of_binaryForm sch hs.wf k a hax ha hs.lt s v s' hcons ((cons_iff _ _).mp hov.1) hcompat hp
       (hpv v hv) hp' hb
   | same hm hc =>
     refine ⟨by rw [hm]; exact hcons.1, ?_, ?_⟩
@@ -162,12 +163,12 @@ theorem run_attached2 [BEq lab] (le : lab → lab → Bool) (sch : Schema) (hs :
     · rename_i s1 hs1
       obtain ⟨hopnd, hsafe, hp, hpv, hrest⟩ := hv
       obtain ⟨hp1, hv1⟩ := hrest s1 hs1
-      have hc1 := step_cons le sch hs fill fx op s s1 hcons hopnd hsafe hp hpv hp1 hs1
+      have hc1 := step_cons le sch fill fx op (hs.at _) s s1 hcons hopnd hsafe hp hpv hp1 hs1
       obtain ⟨hfin, hatt⟩ := ih s1 hc1 hv1 h
       refine ⟨hfin, ?_⟩
       intro c hc
       rcases hatt c hc with h1 | h1
-      · rcases step_attached le sch hs fill fx op s s1 hcons hopnd hsafe hs1 c h1 with h2 | h2
+      · rcases step_attached le sch fill fx op (hs.at _) s s1 hcons hopnd hsafe hs1 c h1 with h2 | h2
         · exact Or.inl h2
         · exact Or.inr (Or.inl h2)
       · exact Or.inr (Or.inr ⟨s1, hs1, h1⟩)
